@@ -119,32 +119,12 @@ def both_sided(fb):
 
 def rule_enum_tables(chk, fb, rid):
     """Writer / reader tables of every attribute enum agree: the string written for a variant is read back as that variant."""
-    import hirq
-
     r = chk.rule(
         rid,
         "enum tables agree: for every enum with a to-string table (EnumTrait::get_value_string) and a from-string table (FromStr::from_str), the literal written for each variant is accepted by from_str and maps back to the same variant",
         floor=300,
     )
-    W, R = {}, {}
-    for d, h in fb.hir.items():
-        if d.endswith("::get_value_string") and "EnumTrait" in d:
-            for m, rows in hirq.match_tables(h["body"]):
-                for ls, arm in rows:
-                    body = hirq.strip(arm["body"])
-                    if body.get("k") == "block" and body.get("expr") and not body.get("stmts"):
-                        body = hirq.strip(body["expr"])
-                    v = body.get("v") if body.get("k") == "lit" and body.get("lt") == "str" else None
-                    for l in ls or []:
-                        if isinstance(l, str) and l.startswith("path:"):
-                            W.setdefault(h.get("self_ty"), {})[l[5:]] = (v, "%s:%s" % (h["file"], arm.get("ln", h.get("line"))))
-        if d.endswith("::from_str") and "FromStr" in d:
-            for m, rows in hirq.match_tables(h["body"]):
-                for ls, arm in rows:
-                    tgt = [y.get("def") for y in hirq.walk(arm["body"]) if y.get("k") in ("path", "call", "struct") and (y.get("def") or "").startswith((h.get("self_ty") or "?") + "::")]
-                    for l in ls or []:
-                        if isinstance(l, str) and not l.startswith("path:"):
-                            R.setdefault(h.get("self_ty"), {})[l] = tgt[0] if tgt else None
+    W, R = enum_tables(fb)
     for adt in sorted(W):
         if adt not in R:
             continue
@@ -179,6 +159,29 @@ def enum_tables(fb):
                     for l in ls or []:
                         if isinstance(l, str) and not l.startswith("path:"):
                             R.setdefault(h.get("self_ty"), {})[l] = tgt[0] if tgt else None
+    # table-driven impls: a const array of (Variant, "literal") pairs consulted by get_value_string / from_str
+    import re
+
+    for d, h in fb.hir.items():
+        is_w = d.endswith("::get_value_string") and "EnumTrait" in d
+        is_r = d.endswith("::from_str") and "FromStr" in d
+        adt = h.get("self_ty")
+        if not (is_w or is_r) or (is_w and adt in W) or (is_r and adt in R):
+            continue
+        for x in hirq.walk(h["body"]):
+            if x.get("k") == "path" and x.get("dk") == "Const" and x.get("def") in fb.consts:
+                c = fb.consts[x["def"]]
+                txt = (c.get("value") or {}).get("c")
+                if not isinstance(txt, str):
+                    continue
+                pairs = re.findall(r'\(([\w:]+::\w+), "((?:[^"\\]|\\.)*)"\)', txt)
+                if not pairs:
+                    continue
+                for variant, lit in pairs:
+                    if is_w:
+                        W.setdefault(adt, {})[variant] = (lit, "%s:%s" % (c.get("file"), c.get("line")))
+                    else:
+                        R.setdefault(adt, {})[lit] = variant
     return W, R
 
 
